@@ -732,8 +732,20 @@ pub fn ack_ap(v: V, kind: AckKind, pid: u32, rc: u8) -> AP {
         V::V5 => {
             if rc == 0 {
                 AP::Ack { v, kind, pid, rc: None, props: None }
-            } else {
+            } else if rc < 16 {
                 AP::Ack { v, kind, pid, rc: Some(rcs[rc as usize % rcs.len()]), props: None }
+            } else {
+                // rc >= 16: an acknowledgement that carries properties (Reason String and/or User Property), so that
+                // its size is not the minimal 4..6 bytes
+                let code = if rc & 0x0f == 0 { rcs[0] } else { rcs[(rc & 0x0f) as usize % rcs.len()] };
+                let mut props = Vec::new();
+                if (rc >> 4) & 1 == 1 {
+                    props.push(Prop { id: pid::REASON_STRING, val: PVal::Str("r".repeat(8 + (rc & 7) as usize * 3)) });
+                }
+                if (rc >> 4) & 2 == 2 {
+                    props.push(Prop { id: pid::USER_PROPERTY, val: PVal::Pair("k".into(), "v".repeat(1 + (rc & 3) as usize * 5)) });
+                }
+                AP::Ack { v, kind, pid, rc: Some(code), props: Some(props) }
             }
         }
     }
@@ -763,6 +775,9 @@ pub struct World {
     pub dead: bool,
     /// contract mode: once the library requested the close, no more peer bytes are fed until notify_closed
     pub strict_close: bool,
+    /// a well-behaved peer and handshake discipline (fuzz-decoded histories for the model checks): CONNECT only on a
+    /// fresh transport, CONNACK only in answer to a CONNECT, everything else only on an established connection
+    pub peer_discipline: bool,
 }
 
 fn nth<T: Copy + Ord>(set: &BTreeSet<T>, k: u16) -> Option<T> {
@@ -775,7 +790,7 @@ fn nth<T: Copy + Ord>(set: &BTreeSet<T>, k: u16) -> Option<T> {
 
 impl World {
     pub fn new(cfg: ConnCfg) -> World {
-        World { c: new_conn(cfg), t: Tracker::new(cfg), app: App::default(), chunk: 0, steps: Vec::new(), dead: false, strict_close: true }
+        World { c: new_conn(cfg), t: Tracker::new(cfg), app: App::default(), chunk: 0, steps: Vec::new(), dead: false, strict_close: true, peer_discipline: false }
     }
 
     pub fn v(&self) -> V {
@@ -1018,6 +1033,27 @@ impl World {
         let act = match act {
             Act::Recv(..) if self.strict_close && self.t.close_requested => Act::Skip("transport is being closed"),
             a => a,
+        };
+        let act = if self.peer_discipline {
+            let t = &self.t;
+            let ok = match op {
+                Op::PeerConnect(_) => t.status == St::Disconnected && t.closed_reported && t.cfg.role != Role::Client,
+                Op::PeerConnack(_) => t.status == St::Connecting && t.as_client,
+                Op::Connack(_) => t.status == St::Connecting && !t.as_client,
+                // the peer also respects the direction rules of MQTT: a server never sends SUBSCRIBE / UNSUBSCRIBE / PINGREQ,
+                // a client never sends SUBACK / UNSUBACK / PINGRESP
+                Op::PeerSubscribe { .. } | Op::PeerUnsubscribe { .. } | Op::PeerPingreq => t.status == St::Connected && !t.as_client,
+                Op::PeerSuback { .. } | Op::PeerUnsuback { .. } | Op::PeerPingresp => t.status == St::Connected && t.as_client,
+                Op::PeerPublish { .. } | Op::PeerAck { .. } | Op::PeerDisconnect { .. } | Op::PeerAuth { .. } | Op::PeerRaw(_) | Op::PeerPacket(_) => t.status == St::Connected,
+                _ => true,
+            };
+            match act {
+                Act::Skip(w) => Act::Skip(w),
+                _ if !ok => Act::Skip("outside the handshake discipline"),
+                a => a,
+            }
+        } else {
+            act
         };
         match act {
             Act::Skip(why) => st.call = Call::Skipped(why.to_string()),
